@@ -70,6 +70,10 @@ def ensure_extmod(ext=None):
 
 def _env(extra=None, cgo_shim=False):
     e = dict(GOENV)
+    if REPO != "/repo" and not os.environ.get("VERIF_NO_TRIMPATH"):
+        # mutation testing in a scratch worktree: -trimpath makes build-cache keys independent of the
+        # checkout directory, so only the mutated package (and its dependents) are recompiled
+        e["GOFLAGS"] = e["GOFLAGS"] + " -trimpath"
     if cgo_shim:
         e["CGO_CFLAGS"] = "-I" + SHIM
     if extra:
